@@ -24,7 +24,7 @@ ASSUMPTIONS = [
     'general case: Jensen bound judged on transmission models; the cross-section run uses the weight-averaged coefficient table (interpolation is linear in the coefficients in linear mode)',
 ]
 RULE = RULE + ' ' + 'Also: the same k-mode model evaluated on two windows of equal length in sequence; the per-layer terms of the emission families in k-mode.'
-REQUIRED = {'zero-weight-point': 0.15, 'requadrature': 0.08, 'grids:same-ends-other-spacing': 0.15, 'family:transmission': 0.2, 'family:emission': 0.2, 'degenerate': 0.3, 'general': 0.2, 'profile:noniso': 0.3}
+REQUIRED = {'refused-quadrature-before-use': 0.1, 'zero-weight-point': 0.15, 'requadrature': 0.08, 'grids:same-ends-other-spacing': 0.15, 'family:transmission': 0.2, 'family:emission': 0.2, 'degenerate': 0.3, 'general': 0.2, 'profile:noniso': 0.3}
 
 
 @st.composite
@@ -87,6 +87,12 @@ def run(out, W, family, case, label):
     else:
         kw['ngauss'] = case['ngauss']
     m = cut(out, label + '-build', synth.make_model, W, family, None, **kw)
+    if family != 'transmission' and label == 'k' and (case['ngauss'] + len(case['weights'])) % 2 == 0:
+        # a refused setting before the k-mode model is used: a quadrature of zero angles (the caller catches the error)
+        try:
+            m.set_num_gauss(0)
+        except Exception:
+            out.cls('refused-quadrature-before-use')
     with np.errstate(all='ignore'):
         r = cut(out, label + '-model', m.model)
     return m, r
